@@ -81,6 +81,10 @@ class _Runtime:
         return None
 
 
+def _cint(x):
+    return isinstance(x, int) and not hasattr(x, '_term')
+
+
 class SymRange:
     def __init__(self, a, b=None):
         if b is None:
@@ -89,19 +93,19 @@ class SymRange:
 
     def __iter__(self):
         a, b = self.start, self.stop
-        if isinstance(a, int) and isinstance(b, int):
+        if _cint(a) and _cint(b):
             return iter(range(a, b))
         raise Unsupported('iteration over a symbolic range outside a declared loop')
 
     def __len__(self):
         n = self.stop - self.start
-        if isinstance(n, int):
+        if _cint(n):
             return max(n, 0)
         raise Unsupported('len of a symbolic range')
 
 
 def sym_range(*args):
-    if all(isinstance(a, int) for a in args):
+    if all(_cint(a) for a in args):
         return range(*args)
     if len(args) > 2:
         raise Unsupported('range with a step')
@@ -173,9 +177,18 @@ class _Cutter(ast.NodeTransformer):
                 elif isinstance(sub, (ast.For,)):
                     tgt = [sub.target]
                 for t_ in tgt:
-                    for n in ast.walk(t_):
-                        if isinstance(n, ast.Name) and n.id not in names:
-                            names.append(n.id)
+                    # only plain names (and names in tuple/list unpacking) are re-bound; `x.attr = ...` and
+                    # `x[i] = ...` mutate an object and are not havocked here
+                    stack = [t_]
+                    while stack:
+                        n = stack.pop()
+                        if isinstance(n, ast.Name):
+                            if n.id not in names:
+                                names.append(n.id)
+                        elif isinstance(n, (ast.Tuple, ast.List)):
+                            stack.extend(n.elts)
+                        elif isinstance(n, ast.Starred):
+                            stack.append(n.value)
         return names
 
     def _state(self, names):
